@@ -2,7 +2,8 @@
 C19 - Directory and pack discovery finds exactly the right simfiles.
 
 A case is a directory tree (plain data) plus the filesystem flavour and the caller's options.  `check` builds the
-tree in a scratch location (native temp dir, fs.memoryfs.MemoryFS, or fs.osfs.OSFS over a temp dir), computes the
+tree in a scratch location (native temp dir or fs.memoryfs.MemoryFS; `"fs": "osfs"` is accepted by `check` for
+probes but never generated - see the note at OsFs), computes the
 expected answers from the tree *and the listing order the same filesystem reports*, and compares them with
 SimfileDirectory / SimfilePack / simfile.opendir / simfile.openpack.
 
@@ -24,7 +25,7 @@ RULE = (
     "(x.sm.old, x.ssca, sm, ssc, x.smx, x.ssc.bak, xsm, ...), images, audio, other files, loose files next to "
     "directories, empty directories, plain-named directories only; every simfile-named file has a unique TITLE and "
     "one of four bodies (plain, stray text after the first parameter, UTF-8 with a non-ASCII title, cp1252-only "
-    "bytes); x filesystem {native temp dir, MemoryFS, OSFS} x ignore_duplicate x strict x encoding "
+    "bytes); x filesystem {native temp dir, MemoryFS} x ignore_duplicate x strict x encoding "
     "{default, utf-8, cp1252}. Every directory of the tree is examined as a SimfileDirectory and through opendir, "
     "every directory as a SimfilePack and through openpack. Non-trivial = the tree holds at least one simfile-named "
     "file and at least one distractor or decision (near miss, duplicate, mixed-case extension, both kinds in one "
@@ -32,9 +33,9 @@ RULE = (
     "options); distinct = distinct case JSON; evaluations = API observations compared with the model"
 )
 ASSUMPTIONS = [
-    "os.listdir / MemoryFS.listdir / OSFS.listdir report a stable order between two calls on an unchanged directory ('first listed' is taken from the same filesystem object)",
+    "os.listdir / MemoryFS.listdir report a stable order between two calls on an unchanged directory ('first listed' is taken from the same filesystem object)",
     "CPython codecs define which bytes decode under utf-8 / cp1252 / cp932 / cp949, and what text results",
-    "PyFilesystem2 MemoryFS and OSFS are correct filesystems",
+    "PyFilesystem2 MemoryFS is a correct filesystem",
     "directories never carry simfile-like names (the property speaks of .sm/.ssc files)",
 ]
 
@@ -175,6 +176,10 @@ class Mem:
 
 
 class OsFs(Mem):
+    """fs.osfs.OSFS over a temp dir.  Not generated: OSFS opens files by a *bytes* system path, so `file.name` is not a
+    str, suffix detection in simfile.load() is skipped and the peeked stream is never rewound - the defect of C03
+    (finding 3).  Kept so that a probe case can show that interplay."""
+
     flavour = "osfs"
 
     def __init__(self):
@@ -474,6 +479,10 @@ def check(case):
             "dir-without-simfile", "openpack-kwargs-observable",
         }
         return Verdict(nontrivial=bool(sims) and bool(decisive), evals=evals, labels=sorted(labels))
+    except Violation as e:
+        # keep messages reproducible: the scratch directory's random name is not part of the finding
+        base = getattr(E, "base", None)
+        raise Violation(str(e).replace(base, "<tmp>") if base else str(e)) from None
     finally:
         E.close()
 
@@ -522,13 +531,14 @@ def _node(draw, depth):
 @st.composite
 def s_case(draw):
     tree = draw(_node(1))
+    o = draw(st.integers(0, 2**24 - 1))  # option bits from one wide draw (less bias towards the first alternative)
     return {
         "tree": tree,
-        "fs": draw(st.sampled_from(["native", "mem", "mem", "osfs"])),
-        "ign": draw(st.booleans()),
-        "strict": draw(st.booleans()),
-        "pass_strict": draw(st.booleans()),
-        "encoding": draw(st.sampled_from([None, None, "utf-8", "cp1252"])),
+        "fs": ["native", "mem"][o & 1],
+        "ign": bool((o >> 1) & 1),
+        "strict": bool((o >> 2) & 1),
+        "pass_strict": bool((o >> 3) & 1),
+        "encoding": [None, "utf-8", "cp1252", None][(o >> 4) & 3],
     }
 
 
@@ -549,7 +559,7 @@ def _fixed():
     ]
     cases = []
     for t in trees:
-        for fs_ in ("native", "mem", "osfs"):
+        for fs_ in ("native", "mem"):
             for ign in (False, True):
                 cases.append({"tree": t, "fs": fs_, "ign": ign, "strict": True, "pass_strict": False, "encoding": None})
     return cases
@@ -559,5 +569,5 @@ def parts(tier):
     q = tier == "quick"
     return [
         {"name": "corner-trees", "kind": "fixed", "cases": _fixed},
-        {"name": "trees", "kind": "hypothesis", "strategy": s_case, "examples": 4000 if q else 16 * 5000},
+        {"name": "trees", "kind": "hypothesis", "strategy": s_case, "examples": 6000 if q else 16 * 6000},
     ]
